@@ -7,6 +7,7 @@ import (
 	"go/token"
 	"go/types"
 	"os"
+	"strconv"
 	"strings"
 
 	"golang.org/x/tools/go/ssa"
@@ -447,18 +448,32 @@ func (c *Ctx) kindSetAt(b *ssa.BasicBlock, subject string, skip func(DomFact) bo
 // constFormats: every printf-style call in the functions declared in the given files passes a constant
 // format string (user-controlled text used as a format is re-interpreted: `%` sequences are mangled).
 func (c *Ctx) constFormats(r *Report, rule string, files ...string) int {
+	return c.constFormatsIn(r, rule, func(fn *ssa.Function) bool {
+		p := c.pos(fn.Pos())
+		for _, f := range files {
+			if strings.HasPrefix(p, f+":") {
+				return true
+			}
+		}
+		return false
+	})
+}
+
+// constFormatsIn: the same over the functions selected by sel. A printf-style wrapper (a variadic function whose
+// parameter before the variadic one is the format it hands on) may pass that parameter along.
+func (c *Ctx) constFormatsIn(r *Report, rule string, sel func(*ssa.Function) bool) int {
 	idx := map[string]int{"fmt.Fprintf": 1, "fmt.Sprintf": 0, "fmt.Errorf": 0, "fmt.Printf": 0, "newErrorf": 1}
 	n := 0
 	for _, fn := range c.Funcs {
-		p := c.pos(fn.Pos())
-		in := false
-		for _, f := range files {
-			if strings.HasPrefix(p, f+":") {
-				in = true
-			}
-		}
-		if !in {
+		if !sel(fn) {
 			continue
+		}
+		var ownFormat ssa.Value
+		if sig := fn.Signature; sig.Variadic() && sig.Params().Len() >= 2 && len(fn.Params) >= 2 {
+			k := len(fn.Params) - 2
+			if bt, ok := fn.Params[k].Type().Underlying().(*types.Basic); ok && bt.Kind() == types.String {
+				ownFormat = fn.Params[k]
+			}
 		}
 		for _, b := range fn.Blocks {
 			for _, x := range b.Instrs {
@@ -472,6 +487,9 @@ func (c *Ctx) constFormats(r *Report, rule string, files ...string) int {
 				}
 				n++
 				_, isConst := ci.Common().Args[i].(*ssa.Const)
+				if !isConst && ownFormat != nil && ci.Common().Args[i] == ownFormat {
+					isConst = true // handed on by a printf-style wrapper; its callers are checked where they are selected
+				}
 				r.Check(isConst, rule, c.fname(fn), "format string of "+c.calleeName(ci.Common())+" is a constant", c.ipos(x), "constant format", "the format is "+trunc(c.term(ci.Common().Args[i]), 100)+": text taken from values or declarations is interpreted as a format, so any `%` in it is mangled")
 			}
 		}
@@ -588,4 +606,39 @@ func varargOperands(c *Ctx, v ssa.Value) ([]string, bool) {
 		}
 	}
 	return ops, true
+}
+
+// constIntTerm: the integer a normalised term denotes when it is a plain decimal literal.
+func constIntTerm(t string) (int64, bool) {
+	n, err := strconv.ParseInt(t, 10, 64)
+	return n, err == nil
+}
+
+// argNamed: the operand a call hands to the parameter of that name of its (package) callee; nil when the callee
+// cannot be resolved or has no parameter of that name (the parameter list was changed).
+func (c *Ctx) argNamed(call ssa.CallInstruction, name string) ssa.Value {
+	cal := call.Common().StaticCallee()
+	if cal == nil {
+		return nil
+	}
+	for i, p := range cal.Params {
+		if p.Name() == name && i < len(call.Common().Args) {
+			return call.Common().Args[i]
+		}
+	}
+	return nil
+}
+
+// soleBoolParam: the index of fn's only boolean parameter (-1 when there is none or more than one).
+func soleBoolParam(fn *ssa.Function) int {
+	idx := -1
+	for i, p := range fn.Params {
+		if bt, ok := p.Type().Underlying().(*types.Basic); ok && bt.Kind() == types.Bool {
+			if idx >= 0 {
+				return -1
+			}
+			idx = i
+		}
+	}
+	return idx
 }
